@@ -9,8 +9,9 @@
          parent namespace;
      (b) `build_xsi_cache` judges the currency of the subclass index by
          `len(sys.modules)` only;
-     (c) `local_names_match` prunes a class whose metadata cannot be built from
-         the index (and raises ValueError the second time).
+   (until /repo c28ded8 also: (c) `local_names_match` pruned a class whose metadata
+   cannot be built from the index and raised ValueError the second time; such
+   classes are now remembered in the set `unsupported`, a pure memo.)
    Client code (serializers, parsers, decoders, encoders) is represented by
    *scripts*: interaction trees over the context's public methods.  No proofs in
    this file. *)
@@ -276,9 +277,10 @@ Record ctx := mkCtx {
   xsi : list (str * list cid);
   seen : N;
   rec : list (ostr * str);
-  built_n : nat }.
+  built_n : nat;
+  unsup : list cid }.            (* XmlContext.unsupported *)
 
-Definition ctx0 : ctx := mkCtx [] [] 0 [] 0.
+Definition ctx0 : ctx := mkCtx [] [] 0 [] 0 [].
 
 Fixpoint cache_get (l : list (cid * meta)) (c : cid) : option meta :=
   match l with
@@ -291,8 +293,6 @@ Inductive tev :=
 | TBuild (c : cid) (pns : ostr) (ideal got : option meta)
 | TLookup (q : str) (ideal got : list cid) (stale : bool)
 | TScan (ideal got : list cid) (stale : bool)
-| TPrune (c : cid)
-| TPruneErr (c : cid)
 | TRecFail (c : cid).
 Definition trace := list tev.
 
@@ -308,7 +308,7 @@ Definition ctx_build (w : world) (x : ctx) (c : cid) (pns : ostr) : ctx * option
   | Some m => (x, Some m, [TBuild c pns (ideal_build w c pns) (Some m)])
   | None =>
       match ideal_build w c pns with
-      | Some m => (mkCtx (cache x ++ [(c, m)]) (xsi x) (seen x) (rec x) (built_n x), Some m,
+      | Some m => (mkCtx (cache x ++ [(c, m)]) (xsi x) (seen x) (rec x) (built_n x) (unsup x), Some m,
                    [TBuild c pns (Some m) (Some m)])
       | None => (x, None, [TBuild c pns None None])
       end
@@ -317,7 +317,7 @@ Definition ctx_build (w : world) (x : ctx) (c : cid) (pns : ostr) : ctx * option
 (* XmlContext.build_xsi_cache *)
 Definition ctx_build_xsi (w : world) (x : ctx) : ctx :=
   if N.eqb (w_modules w) (seen x) then x
-  else mkCtx (cache x) (ideal_index w) (w_modules w) (rec x) (List.length (w_classes w)).
+  else mkCtx (cache x) (ideal_index w) (w_modules w) (rec x) (List.length (w_classes w)) (unsup x).
 
 (* XmlContext.find_types *)
 Definition ctx_find_types (w : world) (x : ctx) (q : str) : ctx * list cid * trace :=
@@ -365,64 +365,30 @@ Fixpoint remove_first (c : cid) (l : list cid) : list cid :=
 Definition subset_str (a b : list str) : bool := forallb (fun s => existsb (str_eqb s) b) a.
 Definition local_names (m : meta) : list str := map v_name (m_vars m).
 
-(* XmlContext.local_names_match; the third component of the answer is true when
-   `list.remove` raised ValueError (class already pruned) *)
+(* XmlContext.local_names_match.  A class whose metadata cannot be built is remembered
+   in `unsupported` (a memo of a function of the class: nothing else reads it) *)
 Definition ctx_local_names_match (w : world) (x : ctx) (names : list str) (c : cid)
-  : ctx * bool * bool * trace :=
-  let '(x1, om, t1) := ctx_build w x c None in
-  match om with
-  | Some m => (x1, subset_str names (local_names m), false, t1)
-  | None =>
-      match find_class w c with
-      | Some cd =>
-          match truthy (target_qname cd) with
-          | Some q =>
-              match index_get (xsi x1) q with
-              | Some l =>
-                  if memN c l then
-                    (mkCtx (cache x1) (index_set (xsi x1) q (remove_first c l)) (seen x1) (rec x1) (built_n x1),
-                     false, false, t1 ++ [TPrune c])
-                  else (x1, false, true, t1 ++ [TPruneErr c])
-              | None => (x1, false, false, t1)
-              end
-          | None => (x1, false, false, t1)
-          end
-      | None => (x1, false, false, t1)
-      end
-  end.
+  : ctx * bool * trace :=
+  if memN c (unsup x) then (x, false, [])
+  else
+    let '(x1, om, t1) := ctx_build w x c None in
+    match om with
+    | Some m => (x1, subset_str names (local_names m), t1)
+    | None =>
+        match find_class w c with
+        | Some _ => (mkCtx (cache x1) (xsi x1) (seen x1) (rec x1) (built_n x1) (unsup x1 ++ [c]), false, t1)
+        | None => (x1, false, t1)
+        end
+    end.
 
-(* the comprehension of find_type_by_fields over one (live) list of the index:
-   Python's list iterator is index based, a removal shifts the rest left *)
-Fixpoint scan_types (fuel : nat) (w : world) (x : ctx) (names : list str) (q : str) (i : nat)
-  : ctx * list cid * option unit * trace :=
-  match fuel with
-  | O => (x, [], None, [])
-  | S f =>
-      match index_get (xsi x) q with
-      | None => (x, [], None, [])
-      | Some l =>
-          match nth_error l i with
-          | None => (x, [], None, [])
-          | Some c =>
-              let '(x1, ok, err, t1) := ctx_local_names_match w x names c in
-              if err then (x1, [], Some tt, t1)
-              else
-                let '(x2, cs, e2, t2) := scan_types f w x1 names q (S i) in
-                (x2, if ok then c :: cs else cs, e2, t1 ++ t2)
-          end
-      end
-  end.
-
-Fixpoint scan_index (w : world) (x : ctx) (names : list str) (keys : list (str * nat))
-  : ctx * list cid * option unit * trace :=
-  match keys with
-  | [] => (x, [], None, [])
-  | (q, n) :: r =>
-      let '(x1, cs, e1, t1) := scan_types (S n) w x names q O in
-      match e1 with
-      | Some _ => (x1, cs, e1, t1)
-      | None => let '(x2, cs2, e2, t2) := scan_index w x1 names r in (x2, cs ++ cs2, e2, t1 ++ t2)
-      end
+(* the comprehension of find_type_by_fields over one list of the index *)
+Fixpoint scan_types (w : world) (x : ctx) (names : list str) (l : list cid) : ctx * list cid * trace :=
+  match l with
+  | [] => (x, [], [])
+  | c :: r =>
+      let '(x1, ok, t1) := ctx_local_names_match w x names c in
+      let '(x2, cs, t2) := scan_types w x1 names r in
+      (x2, if ok then c :: cs else cs, t1 ++ t2)
   end.
 
 (* lexicographic order on names (Python str comparison by code point) *)
@@ -463,23 +429,17 @@ Definition ideal_names_match (w : world) (names : list str) (c : cid) : bool :=
 Definition ideal_candidates (w : world) (names : list str) : list cid :=
   filter (ideal_names_match w names) (flat_map snd (ideal_index w)).
 
-(* XmlContext.find_type_by_fields; None in the third component = no exception *)
-Definition ctx_find_by_fields (w : world) (x : ctx) (names : list str)
-  : ctx * option cid * option unit * trace :=
+(* XmlContext.find_type_by_fields *)
+Definition ctx_find_by_fields (w : world) (x : ctx) (names : list str) : ctx * option cid * trace :=
   let x0 := ctx_build_xsi w x in
-  let keys := map (fun e => (fst e, List.length (snd e))) (xsi x0) in
-  let '(x1, cs, e, t) := scan_index w x0 names keys in
+  let '(x1, cs, t) := scan_types w x0 names (flat_map snd (xsi x0)) in
   let t := t ++ [TScan (ideal_candidates w names) cs
                       (negb (Nat.eqb (built_n x0) (List.length (w_classes w))))] in
-  match e with
-  | Some _ => (x1, None, e, t)
-  | None =>
-      let scored := map (fun c => (c, (match cache_get (cache x1) c with
-                                       | Some m => field_diff names m
-                                       | None => O
-                                       end, class_name w c))) cs in
-      (x1, min_by scored None, None, t)
-  end.
+  let scored := map (fun c => (c, (match cache_get (cache x1) c with
+                                   | Some m => field_diff names m
+                                   | None => O
+                                   end, class_name w c))) cs in
+  (x1, min_by scored None, t).
 
 (* XmlContext.build_recursive; false = XmlContextError escaped.  `nested` is true
    below the class the caller asked for: a failure there is the one a cached
@@ -509,12 +469,12 @@ Fixpoint ctx_build_rec (fuel : nat) (nested : bool) (w : world) (x : ctx) (c : c
   end.
 
 (* XmlContext.reset *)
-Definition ctx_reset (x : ctx) : ctx := mkCtx [] [] 0 (rec x) 0.
+Definition ctx_reset (x : ctx) : ctx := mkCtx [] [] 0 (rec x) 0 [].
 
 (* PushParser.register_namespace on the parser's own recorder *)
 Definition ctx_register (x : ctx) (prefix : ostr) (uri : str) : ctx :=
   if existsb (fun e => ostr_eqb (fst e) prefix) (rec x) then x
-  else mkCtx (cache x) (xsi x) (seen x) (rec x ++ [(prefix, uri)]) (built_n x).
+  else mkCtx (cache x) (xsi x) (seen x) (rec x ++ [(prefix, uri)]) (built_n x) (unsup x).
 
 (* ------------------------------------------------------- calls and scripts *)
 Inductive call :=
@@ -552,12 +512,8 @@ Definition exec_call (w : world) (x : ctx) (c : call) : ctx * ans * trace :=
   | CFindType q => let '(x1, oc, t) := ctx_find_type w x q in (x1, ACls oc, t)
   | CFindTypes q => let '(x1, l, t) := ctx_find_types w x q in (x1, AClss l, t)
   | CFindSubclass c q => let '(x1, oc, t) := ctx_find_subclass w x c q in (x1, ACls oc, t)
-  | CFindByFields names =>
-      let '(x1, oc, e, t) := ctx_find_by_fields w x names in
-      (x1, match e with Some _ => AErr e_value | None => ACls oc end, t)
-  | CLocalNamesMatch names c =>
-      let '(x1, b, e, t) := ctx_local_names_match w x names c in
-      (x1, if e then AErr e_value else ABool b, t)
+  | CFindByFields names => let '(x1, oc, t) := ctx_find_by_fields w x names in (x1, ACls oc, t)
+  | CLocalNamesMatch names c => let '(x1, b, t) := ctx_local_names_match w x names c in (x1, ABool b, t)
   | CBuildRecursive c pns =>
       let '(x1, ok, t) := ctx_build_rec (S (List.length (w_classes w))) false w x c pns in
       (x1, if ok then AUnit else AErr e_context, t)
@@ -1177,10 +1133,9 @@ Definition ns_closed (t : trace) : bool := consistent (builds_of t).
 Definition modules_stable (h : list hop) : bool :=
   forallb (fun o => match o with HEnv (EDefine _ b) => b | _ => true end) h.
 
-(* (c) no class was pruned from the index by local_names_match;
-   (d) build_recursive never ran into a class it cannot build *)
+(* (d) build_recursive never ran into a class it cannot build *)
 Definition quiet (t : trace) : bool :=
-  forallb (fun e => match e with TPrune _ | TPruneErr _ | TRecFail _ => false | _ => true end) t.
+  forallb (fun e => match e with TRecFail _ => false | _ => true end) t.
 
 Definition world_ok (w : world) : bool := N.ltb 0 (w_modules w).
 
@@ -1212,7 +1167,6 @@ Definition dev_prune (t : trace) : bool :=
   existsb (fun e => match e with
                     | TLookup _ i g st => negb st && negb (lcid_eqb i g)
                     | TScan i g st => negb st && negb (lcid_eqb i g)
-                    | TPruneErr _ => true
                     | _ => false end) t.
 Definition has_recfail (t : trace) : bool :=
   existsb (fun e => match e with TRecFail _ => true | _ => false end) t.
